@@ -400,7 +400,9 @@ impl Run {
           } else if !self.cfg.may_forget() {
             // C12: "An unexpired entry of an unbounded cache is not reported missing"
             return Err(fail("C12", api, "unexpired_missing", format!("key {k} write {wid} reported missing at now={} ns although unexpired (ttl deadline {:?}, idle {}+{:?}) and the cache is unbounded", self.now, w.ttl, w.idle_lo, self.tti())));
-          } else if self.rec.is_some() && !self.burst {
+          } else if self.rec.is_some() && !self.burst && !self.cfg.maint_always {
+            // (not with maint_always: the real janitor thread sends its notifications after releasing
+            // the shard lock, so the sentinel could overtake one that is about to be sent)
             // C16: "every removal caused by ... expiry cleanup or by capacity eviction is notified":
             // an unexpired entry that is gone was removed by the cache; its notification must exist
             self.sync_listener(api)?;
@@ -866,6 +868,30 @@ impl Run {
     }
   }
 
+  /// Removal counters before an enumeration, to notice a background janitor pass that removed
+  /// entries meanwhile (only the maint_always configurations have an active janitor).
+  fn janitor_mark(&self) -> Option<(u64, u64, u64)> {
+    if !self.cfg.maint_always {
+      return None;
+    }
+    // With maintenance_chance(1) every async insert signals the janitor thread, which then drains
+    // and evicts concurrently with the following operations: such a cache is never "at quiescence"
+    // from the harness's point of view (the removal counters are bumped slightly after the removal,
+    // so comparing them around the enumeration would still leave a window).
+    Some((u64::MAX, 0, 0))
+  }
+
+  fn was_quiescent(&self, before: Option<(u64, u64, u64)>) -> bool {
+    match before {
+      None => true,
+      Some((u64::MAX, _, _)) => false,
+      Some(b) => {
+        let m = self.cache.metrics();
+        b == (m.evicted_by_capacity, m.evicted_by_ttl, m.evicted_by_tti)
+      }
+    }
+  }
+
   fn nonempty_shards(&self) -> usize {
     let mut s = BTreeSet::new();
     for k in self.live.keys() {
@@ -882,6 +908,7 @@ impl Run {
     if self.nonempty_shards() >= 2 && live_n > if batch == 0 { 64 } else { batch } {
       self.nt17 = true;
     }
+    let janitor_before = self.janitor_mark();
     let mut items: Vec<(u32, Val)> = Vec::new();
     let mut snap_meta: Vec<(u64, Option<u64>)> = Vec::new();
     let adv_at = adv.map(|(at, a)| (at as usize, a));
@@ -951,11 +978,15 @@ impl Run {
         }
       }
     }
-    self.check_enumeration(&api, &items, t0, if snap_meta.is_empty() { None } else { Some(&snap_meta) })
+    let quiescent = self.was_quiescent(janitor_before);
+    self.check_enumeration(&api, &items, t0, if snap_meta.is_empty() { None } else { Some(&snap_meta) }, quiescent)
   }
 
   /// `t0`: virtual time when the enumeration started (`self.now` = when it ended).
-  fn check_enumeration(&mut self, api: &str, items: &[(u32, Val)], t0: u64, meta: Option<&[(u64, Option<u64>)]>) -> Result<(), Failure> {
+  /// `quiescent`: nothing else touched the cache during the enumeration (C17 says "at quiescence");
+  /// false when the real janitor thread may have removed entries meanwhile (maint_always), in which
+  /// case only the values are checked, not exactly-once / completeness.
+  fn check_enumeration(&mut self, api: &str, items: &[(u32, Val)], t0: u64, meta: Option<&[(u64, Option<u64>)]>, quiescent: bool) -> Result<(), Failure> {
     let refresh = Refresh::Possible;
     let mut seen = BTreeSet::new();
     let t1 = self.now;
@@ -964,7 +995,7 @@ impl Run {
         continue;
       }
       // C17: "enumerate every live entry exactly once"
-      if !seen.insert(*k) {
+      if !seen.insert(*k) && quiescent {
         return Err(fail("C17", api, "duplicate_key", format!("key {k} yielded twice")));
       }
       // C17: "with its current value and omit expired ones" — judged at the time the enumeration
@@ -1001,6 +1032,10 @@ impl Run {
     }
     // completeness, differential against point reads: a live entry that was not yielded must not be
     // readable now either (peek does not refresh and does not touch the policy)
+    if !quiescent {
+      self.rep.class("enumeration_not_quiescent");
+      return Ok(());
+    }
     let missing: Vec<(u32, u64)> = self.live.iter().filter(|(k, _)| !seen.contains(k)).map(|(k, w)| (*k, *w)).collect();
     for (k, wid) in missing {
       let got = self.cache.peek(&k).map(|v| (*v).clone());
@@ -1057,7 +1092,8 @@ impl Run {
         // read before anything the drain may report)
         let items = q.visible.clone();
         let t = self.now;
-        self.check_enumeration(&format!("{api}.iter"), &items, t, None)?;
+        // (the view was taken between two equal metric reads: quiescent)
+        self.check_enumeration(&format!("{api}.iter"), &items, t, None, true)?;
         self.sync_listener(api)
       }
       Err(QuiesceErr::Inconclusive(_)) => {
@@ -1084,6 +1120,7 @@ impl Run {
       _ => "restore.bincode",
     };
     let t0 = self.now;
+    let janitor_before = self.janitor_mark();
     let snap: CacheSnapshot<u32, Val> = if asnap { block_on(self.ac.to_snapshot()) } else { self.cache.to_snapshot() };
     let js = serde_json::to_value(&snap).expect("snapshot serialises");
     let snap = match fmt % 3 {
@@ -1100,7 +1137,8 @@ impl Run {
       meta.push((e["cost"].as_u64().unwrap(), ttl));
       items.push((e["key"].as_u64().unwrap() as u32, v));
     }
-    self.check_enumeration("restore.to_snapshot", &items, t0, Some(&meta))?;
+    let quiescent = self.was_quiescent(janitor_before);
+    self.check_enumeration("restore.to_snapshot", &items, t0, Some(&meta), quiescent)?;
     // build the second cache
     let mut b: TBuilder = TBuilder::new().hasher(FixedState { collide: self.cfg.collide }).janitor_tick_interval(Duration::from_millis(50)).maintenance_chance(1 << 31);
     if let Some(t) = self.cfg.ttl_ms {
@@ -1518,7 +1556,7 @@ pub fn check(check: &mut Check) {
   };
   let cases = match focus {
     Focus::C17 => ctx.tier.pick(3_000u64, 300_000u64),
-    Focus::C15 => ctx.tier.pick(4_000u64, 300_000u64),
+    Focus::C15 => ctx.tier.pick(3_000u64, 300_000u64),
     _ => ctx.tier.pick(6_000u64, 600_000u64),
   };
   let max_ops = ctx.tier.pick(45usize, 90usize);
